@@ -222,6 +222,21 @@ def rule_pair(ctx):
            'bufnum = self._buffer_allocator.alloc(n)' in full(nb.node), 'buffer numbers come from the allocator free() releases to', fr.node, b.module)
     sends = [c for c in U.calls(fr.node) if U.method_name(c) in ('send_msg', 'send_bundle')]
     ctx.ob('C17.pair', f'{b.fq}:free-once', len(sends) == 1, 'free emits exactly one command', fr.node, b.module)
+    # census: every function that writes a /b_free command by hand also gives the number back to the buffer allocator
+    k_ = 0
+    for fi in repo.functions.values():
+        if not fi.module.name.startswith('sc3.'):
+            continue
+        lits = [x for x in walk_local(fi.node) if isinstance(x, ast.Constant) and x.value == '/b_free']
+        nested = [x for g in ast.walk(fi.node) if isinstance(g, ast.Lambda) for x in ast.walk(g) if isinstance(x, ast.Constant) and x.value == '/b_free']
+        if not lits and not nested:
+            continue
+        k_ += 1
+        rel = any(U.method_name(c) == 'free' and norm(c.func.value).endswith('_buffer_allocator') for c in U.calls(fi.node))
+        ctx.ob('C17.pair', f'{fi.fq}:/b_free:releases-number', rel,
+               f'{fi.qualname} emits /b_free by hand but never calls <server>._buffer_allocator.free(...): the server forgets the buffer, the '
+               f'client keeps the number allocated for ever', fi.node, fi.module)
+    ctx.require(k_ >= 3, 'C17.pair', f'only {k_} functions that write /b_free found')
     # node ids: every object that emits a creation command with its own id draws that id from the server allocator
     for fq in ('sc3.synth.node:Synth.__init__', 'sc3.synth.node:AbstractGroup.__init__', 'sc3.synth.node:Node.basic_new'):
         f = repo.try_func(fq)
@@ -382,6 +397,10 @@ def rule_bind(ctx):
 
 
 def run(ctx):
+    from ..report import SubCtx
+    from . import c06
+    sub = SubCtx(ctx, 'C17.clump', 'a bind block larger than a datagram leaves through send_clumped_bundles: every collected command lands in exactly one clump, in order, as decided for C06')
+    c06.rule_clump(sub)
     # a freed bus (index None) is never turned into a command argument: None would go out as 0
     bus = ctx.repo.cls('sc3.synth.bus:Bus')
     ci_ = bus.methods['_as_control_input']
@@ -408,6 +427,8 @@ def run(ctx):
 
 
 MUTANTS = [
+    dict(rule='C17.pair', name='Recorder frees its buffer on the server only (fix reverted)', file='sc3/synth/recorder.py',
+         old="            buf._uncache()\n            self._server._buffer_allocator.free(buf.bufnum)\n            buf._bufnum = None\n", new=""),
     dict(rule='C17.guard', name='Buffer.read without the freed guard (fix reverted)', file='sc3/synth/buffer.py',
          old="        if self._bufnum is None:\n            raise BufferAlreadyFreed('read')\n", new=""),
     dict(rule='C17.guard', name='freed Buffer accepted as node argument (fix reverted)', file='sc3/synth/buffer.py',
